@@ -132,3 +132,32 @@ def run(ctx):
     tasks = [(cases[j], int(ctx.seed * 1000003 + j + 7)) for j in order[:6000 if quick else len(cases)]]
     common.pmap(ctx, _matrix_worker, tasks)
     replay_bitperm(ctx)
+    # one step beyond the small scope (inequalities and exact-rank reproduction only): arrays with 10^4 .. 10^5 entries
+    for t in range(6 if quick else 40):
+        d = int(rng.integers(3, 6))
+        n = [int(x) for x in rng.integers(4, 13, size=d)]
+        while int(np.prod(n)) > 120000:
+            n[int(np.argmax(n))] -= 2
+        rr = [1] + [int(x) for x in rng.integers(2, 6, size=d - 1)] + [1]
+        T = [rng.normal(size=(rr[k], n[k], rr[k + 1])) for k in range(d)]
+        A = F.dense(T) * 2.0 ** int(rng.choice([0, -20, 20]))
+        nA = float(np.linalg.norm(A))
+        true_r = [int(np.linalg.matrix_rank(A.reshape(int(np.prod(n[:k])), -1))) for k in range(1, d)]
+        ctx.case(key=('large-svd', n, rr, t, ctx.seed), nontrivial=True)
+        Z = teneva.svd(A.copy(), e=1e-9 * nA)
+        okz = F.is_wellformed(Z, n) and [G.shape[2] for G in Z[:-1]] == true_r and np.linalg.norm(F.dense(Z) - A) <= 1e-8 * nA
+        ctx.check(okz, 'svd:exact-rank', 'svd of an array of shape %s with exact TT-ranks %s: ranks %s / not reproduced to rounding accuracy' % (n, true_r, [G.shape[2] for G in Z[:-1]] if F.is_wellformed(Z, n) else None))
+        N = A + 1e-3 * nA / np.sqrt(A.size) * rng.normal(size=A.shape)          # full-rank perturbation
+        for e_rel, cap in ((1e-2, 1e12), (1e-5, 3), (0.3, 2.5)):
+            e_ = e_rel * nA
+            Zc = teneva.svd(N.copy(), e=e_, r=cap)
+            okc = F.is_wellformed(Zc, n)
+            if okc:
+                rk = [G.shape[2] for G in Zc[:-1]]
+                okc = all(1 <= x <= max(1, int(cap)) for x in rk)
+                sv = [np.linalg.svd(N.reshape(int(np.prod(n[:k])), -1), compute_uv=False) for k in range(1, d)]
+                minr = [int(max(1, np.sum(np.cumsum(s_[::-1] ** 2)[::-1] > e_ * e_))) for s_ in sv]
+                okc = okc and all(x <= m_ for x, m_ in zip(rk, minr))
+                if cap > 100:
+                    okc = okc and np.linalg.norm(F.dense(Zc) - N) <= e_ * np.sqrt(d - 1) * (1 + 1e-9)
+            ctx.check(okc, 'svd:large', 'svd(e=%g*||A||, r=%s) of a full-rank array of shape %s: cap, quasi-optimal ranks or the error bound e*sqrt(d-1) violated' % (e_rel, cap, n))
